@@ -50,6 +50,10 @@ type LinkCase struct {
 	// requests of one subscriber are sent one at a time, under the subscriber lock), so the scripted fates meet the update's
 	// own requests and every answer is attributed as without it
 	Recharge bool `json:"recharge"`
+	// Alt: the subscriber has two charging sessions that number their invocations independently (TS 32.290); the
+	// operations alternate between them -- A(2), B(2), A(3), B(3) ... -- so that consecutive requests of the subscriber
+	// carry the same invocation sequence number
+	Alt bool `json:"alt"`
 }
 
 // DensePos reports whether the fates are to be laid over consecutive rating requests of one update.
@@ -310,7 +314,7 @@ func RunLink(prefix, in, out string) error {
 			ref = hr.Location[i+1:]
 		}
 		ref2 := ""
-		if c.Release2 {
+		if c.Release2 || c.Alt {
 			hr2 := env.Do("POST", "/nchf-convergedcharging/v3/chargingdata", []byte(strings.Replace(body, `"chargingId":3`, `"chargingId":4`, 1)), nil, 10*time.Second)
 			if i := strings.LastIndex(hr2.Location, "/"); i >= 0 {
 				ref2 = hr2.Location[i+1:]
@@ -348,8 +352,12 @@ func RunLink(prefix, in, out string) error {
 			if ue, ok := chf_context.GetSelf().ChfUeFindBySupi(supi); ok {
 				reservedBefore = ue.ReservedQuota[1]
 			}
+			isn := n + 2
+			if c.Alt {
+				isn = 2 + n/2
+			}
 			upd := fmt.Sprintf(`{"subscriberIdentifier":%q,"invocationSequenceNumber":%d,"multipleUnitUsage":[{"ratingGroup":1,"requestedUnit":{"totalVolume":%d},"usedUnitContainer":[{"quotaManagementIndicator":"ONLINE_CHARGING","totalVolume":0,"localSequenceNumber":%d}]}]}`,
-				supi, n+2, 100000*(n+1), n+1)
+				supi, isn, 100000*(n+1), n+1)
 			if c.Recharge {
 				go func() {
 					_ = env.Do("PUT", "/nchf-convergedcharging/v3/recharging/"+supi+"_2", nil, nil, 30*time.Second)
@@ -362,6 +370,8 @@ func RunLink(prefix, in, out string) error {
 			if c.Release2 && n == 0 {
 				okStatus = 204
 				res = env.Do("POST", "/nchf-convergedcharging/v3/chargingdata/"+ref2+"/release", []byte(upd), nil, 45*time.Second)
+			} else if c.Alt && n%2 == 1 {
+				res = env.Do("POST", "/nchf-convergedcharging/v3/chargingdata/"+ref2+"/update", []byte(upd), nil, 45*time.Second)
 			} else {
 				res = env.Do("POST", "/nchf-convergedcharging/v3/chargingdata/"+ref+"/update", []byte(upd), nil, 45*time.Second)
 			}
